@@ -387,6 +387,52 @@ def rule_g(ctx):
     rep.require('C09.g', 'dereferences of the optional channel subscription', n, 4)
 
 
+def rule_router_future(ctx):
+    """CANCEL of a request-response cancels the future the application's route returned: the router hands a Future it
+    gets from a route on as it is (a wrapper task would be what gets cancelled - possibly before it ever ran - while the
+    route's own future keeps running), and the routing handler returns what the router returned."""
+    rep = ctx.report
+    router = ctx.repo.cls('rsocket.routing.request_router:RequestRouter')
+    f = router.lookup('route')
+    if f is None:
+        raise AnalysisError('C09.i: RequestRouter.route vanished')
+    ok = True
+    why = ''
+    n_fut = 0
+    for p in ctx.paths(f, router, inline_depth=1, no_inline={'_collect_route_arguments', '_get_unknown_route'}):
+        if p.outcome != 'return':
+            continue
+        calls = [e for e in p.events if e.kind == 'call' and e.data.get('awaited') and
+                 'method' in str(e.data.get('name'))]
+        if not calls:
+            continue
+        res = ('awaited', strip_epoch(calls[-1].data['value'].term))
+        isfut = [x for x in p.events if x.kind == 'cond' and x.data['key'][0] == 'isinstance' and
+                 strip_epoch(x.data['key'][1]) in (res, res[1]) and 'Future' in repr(x.data['key'][2])]
+        if isfut and isfut[-1].data['value'] is True:
+            n_fut += 1
+            if strip_epoch(p.value.term) not in (res, res[1]):
+                ok, why = False, ('a Future returned by a route is replaced by %s before it reaches the responder: a '
+                                  'CANCEL cancels the replacement, not the route\'s future' % fmt_term(
+                                      p.value.term)[:70])
+    rep.add('C09.i', 'RequestRouter.route / a Future returned by a route is handed on as it is', f, ok and n_fut > 0,
+            why or 'on the %d paths where the route returned a Future that very object is returned' % n_fut)
+    h = ctx.repo.cls('rsocket.routing.routing_request_handler:RoutingRequestHandler')
+    g = h.lookup('request_response')
+    ok = False
+    for p in ctx.paths(g, h, inline_depth=0, exc=()):
+        if p.outcome != 'return':
+            continue
+        calls = [e for e in p.events if e.kind == 'call' and e.data.get('name') == '_parse_and_route' and
+                 e.data.get('awaited')]
+        if len(calls) == 1 and strip_epoch(p.value.term) in (('awaited', strip_epoch(calls[0].data['value'].term)),
+                                                             strip_epoch(calls[0].data['value'].term)):
+            ok = True
+    rep.add('C09.i', 'RoutingRequestHandler.request_response / returns what the router returned', g, ok,
+            'the routed result is returned unchanged on the normal path' if ok else
+            'the routing handler does not return the routed future itself')
+
+
 def rule_rx(ctx):
     """Disposing an Rx observable cancels the stream behind it (shared C20.d)."""
     from .c20 import rule_d as c20d
@@ -404,4 +450,4 @@ def rule_order(ctx):
 
 
 RULES = [('C09.a', rule_a), ('C09.b', rule_b), ('C09.c', rule_c), ('C09.d', rule_d), ('C09.e', rule_e),
-         ('C09.f', c07b), ('C09.g', rule_g), ('C05.a', rule_order), ('C20.d', rule_rx)]
+         ('C09.f', c07b), ('C09.g', rule_g), ('C05.a', rule_order), ('C20.d', rule_rx), ('C09.i', rule_router_future)]
